@@ -437,6 +437,8 @@ def gen_files(ctx, n_random):
 
 
 def correspondence(ctx):
+    import time
+    t_start = time.time()
     r = ctx.rng
     nfiles = ctx.budget(3, 40) * (3 if ctx.brokens else 1)
     edits_per_file = ctx.budget(400, 100000)
@@ -486,7 +488,9 @@ def correspondence(ctx):
                                                     rd[1] if rd[0] == "err" else "ok")] += 1
             if fi == 2:
                 ctx.sample({"comments": cm, "components": repr(comps), "key": key, "text": text[:240]})
+    t_impl = time.time()
     bad = ctx.coq_eval("c04", IMPORTS, exprs, preamble=PRE + "\n".join(defs), shard=max(150, len(exprs) // 48 + 1))
+    ctx.extra["timing_correspondence_s"] = {"implementation": round(t_impl - t_start, 1), "coq": round(time.time() - t_impl, 1)}
     if bad is None:
         return
     ctx.traces += len(exprs)
@@ -509,6 +513,8 @@ def real_plugin():
 
 
 def search(ctx):
+    import time
+    t_search = time.time()
     real_plugin()
     r = ctx.rng
     boost = 4 if ctx.brokens else 1
@@ -633,6 +639,7 @@ def search(ctx):
         ctx.notes.append("observation (not a C04 violation): %d damaged multi-block BEC2 headers were accepted with the original session "
                          "key and content but a different authentication-block list (header not authenticated: a block with a damaged "
                          "tag / key-selector byte became an UnknownAuthBlock while another block opened the file)" % hdr_obs[0])
+    ctx.extra["timing_search_s"] = round(time.time() - t_search, 1)
     ctx.extra["partial"] = PARTIAL
     ctx.extra["rule"] = (
         "authentic files: 6 boundary shapes (empty directory, trailing 0x00 runs, last byte with non-zero high nibble, 16-aligned and "
